@@ -204,7 +204,11 @@ class World:
         self.servers[s].state = scheduler.State.frozen
 
     def ev_MarkUnschedule(self, a):
-        self.cell.apps[a].unschedule = True
+        # master._freeze_server marks instances it finds ON the server being frozen
+        app = self.cell.apps.get(a)
+        if app is None or not app.server or app.server not in self.servers:
+            raise SkipEvent()
+        app.unschedule = True
 
     def ev_RemoveServer(self, s):
         srv = self.servers.pop(s)
@@ -303,8 +307,10 @@ def project_cell(cell, servers_in, buckets_in, blevel, bparent, allocs_in, clock
         allocs[n] = dict(rank=int(al.rank), adj=int(al.rank_adjustment), reserved=ivec(al.reserved),
                          maxutil=(-1 if mu == float('inf') else int(mu)),
                          label=al.label or '')
+    nea = cell.next_event_at
     return dict(clock=clock, servers=servers, buckets=buckets, apps=apps,
-                groups=groups, allocs=allocs)
+                groups=groups, allocs=allocs,
+                nea=(-1 if nea == float('inf') else relf(float(nea))))
 
 
 def replay(scn, history):
